@@ -17,6 +17,8 @@ type Term struct {
 	P1   int    // extract hi / extension amount
 	P2   int    // extract lo
 	ID   int
+	KZ   uint64 // bits known to be zero
+	KO   uint64 // bits known to be one
 }
 
 // Store owns the hash-consing table for one path.
@@ -63,10 +65,87 @@ func (s *Store) mk(t *Term) *Term {
 	if e, ok := s.tab[k]; ok {
 		return e
 	}
+	if t.W > 0 && t.Op != "c" {
+		known(t)
+		if t.KZ|t.KO == mask(t.W) {
+			// every bit is determined: fold to a constant
+			c := s.Const(t.W, t.KO)
+			s.tab[k] = c
+			return c
+		}
+	} else if t.Op == "c" && t.W > 0 {
+		t.KO = t.C
+		t.KZ = ^t.C & mask(t.W)
+	}
 	s.next++
 	t.ID = s.next
 	s.tab[k] = t
 	return t
+}
+
+// known computes the known-zero/known-one bit masks of a bit-vector term from those of its arguments.
+func known(t *Term) {
+	m := mask(t.W)
+	a := t.Args
+	switch t.Op {
+	case "bvand":
+		t.KZ = (a[0].KZ | a[1].KZ) & m
+		t.KO = a[0].KO & a[1].KO
+	case "bvor":
+		t.KO = (a[0].KO | a[1].KO) & m
+		t.KZ = a[0].KZ & a[1].KZ
+	case "bvxor":
+		kn := (a[0].KZ | a[0].KO) & (a[1].KZ | a[1].KO)
+		v := (a[0].KO ^ a[1].KO) & kn
+		t.KO = v
+		t.KZ = kn &^ v
+	case "bvnot":
+		t.KO = a[0].KZ
+		t.KZ = a[0].KO
+	case "bvshl":
+		if a[1].IsConst() && a[1].C < uint64(t.W) {
+			sh := a[1].C
+			t.KO = (a[0].KO << sh) & m
+			t.KZ = ((a[0].KZ << sh) | ((uint64(1) << sh) - 1)) & m
+		}
+	case "bvlshr":
+		if a[1].IsConst() && a[1].C < uint64(t.W) {
+			sh := a[1].C
+			t.KO = a[0].KO >> sh
+			t.KZ = ((a[0].KZ >> sh) | (m &^ (m >> sh))) & m
+		}
+	case "zext":
+		t.KO = a[0].KO
+		t.KZ = (a[0].KZ | (m &^ mask(a[0].W))) & m
+	case "sext":
+		t.KO = a[0].KO
+		t.KZ = a[0].KZ
+		top := uint64(1) << uint(a[0].W-1)
+		if a[0].KZ&top != 0 {
+			t.KZ |= m &^ mask(a[0].W)
+		} else if a[0].KO&top != 0 {
+			t.KO |= m &^ mask(a[0].W)
+		}
+	case "extract":
+		t.KO = (a[0].KO >> uint(t.P2)) & m
+		t.KZ = (a[0].KZ >> uint(t.P2)) & m
+	case "ite":
+		t.KO = a[1].KO & a[2].KO
+		t.KZ = a[1].KZ & a[2].KZ
+	case "bvadd":
+		// low bits: if the low k bits of both operands are known, the low k bits of the sum are known
+		kn := (a[0].KZ | a[0].KO) & (a[1].KZ | a[1].KO)
+		k := 0
+		for k < t.W && kn&(uint64(1)<<uint(k)) != 0 {
+			k++
+		}
+		if k > 0 {
+			lm := mask(k)
+			v := (a[0].KO + a[1].KO) & lm
+			t.KO = v
+			t.KZ = lm &^ v
+		}
+	}
 }
 
 func (s *Store) Const(w int, c uint64) *Term {
@@ -210,6 +289,9 @@ func (s *Store) Eq(a, b *Term) *Term {
 	}
 	if a.IsConst() && b.IsConst() {
 		return s.Bool(a.C == b.C)
+	}
+	if a.W > 0 && (a.KO&b.KZ)|(a.KZ&b.KO) != 0 {
+		return s.False() // some bit is known to differ
 	}
 	if a.W == 0 {
 		if a.IsConst() {
